@@ -161,7 +161,7 @@ def run_file(item):
 def marker_ok(name, hist):
     """The statement covers the marker for fixed-width types and for strings in single-chunk segments."""
     last = hist[-1]
-    has_string = 'str' in name.split('/')[0]
+    has_string = 'str' in name.split('/')[0].lower()
     return (not has_string) or last.get('chunks', 1) == 1
 
 
